@@ -1709,3 +1709,166 @@ theorem dataPhase_true_none {bnd : Bytes} (hb : BoundaryOk bnd) (chunks : List B
       exact ⟨p.drop (lbLen buf) ++ p2, by simp only [dataPhase, hrun]; rw [hrun2, List.append_assoc]⟩
 
 end Wz.Multipart
+
+namespace Wz.Multipart
+open Wz
+
+/-! ### the encoder's framing of a payload is undone by the DATA kernel (C02) -/
+
+/-- some line break in `s` is directly followed by `d` -/
+def lineStarts (d : Bytes) : Bytes → Bool
+  | [] => false
+  | a :: r => (isNl a && d.isPrefixOf r) || lineStarts d r
+
+/-- the payload may be written between `CRLF` and `CRLF--boundary`: neither its first line nor any
+later line starts with `--boundary` (near-copies, `--` runs, CR/LF runs are all fine) -/
+def PayloadOk (bnd payload : Bytes) : Prop := lineStarts (delim bnd) (13 :: 10 :: payload) = false
+
+instance (bnd payload : Bytes) : Decidable (PayloadOk bnd payload) := by
+  unfold PayloadOk; infer_instance
+
+/-- no delimiter can start inside `p` when no line of `p` starts with `--boundary` and `p` is
+followed by a CR -/
+theorem no_match_inside {bnd : Bytes} (hb : BoundaryOk bnd) (p Y : Bytes)
+    (h : lineStarts (delim bnd) p = false) :
+    ∀ j, j < p.length → matchDelimAt bnd false ((p ++ 13 :: Y).drop j) = none := by
+  induction p with
+  | nil => intro j hj; simp at hj
+  | cons a r ih =>
+    simp only [lineStarts, Bool.or_eq_false_iff] at h
+    intro j hj
+    cases j with
+    | succ j => simpa using ih h.2 j (by simpa using hj)
+    | zero =>
+      simp only [List.drop_zero]
+      cases hx : matchDelimAt bnd false ((a :: r) ++ 13 :: Y) with
+      | none => rfl
+      | some v =>
+        exfalso
+        rcases v with ⟨n, f⟩
+        rcases matchDelimAt_iff.1 hx with ⟨r', m, hl, hd, _, _⟩
+        have ha : isNl a = true := by
+          rcases lbLen_pos_iff.1 hl with ⟨a', t', he, hn⟩
+          simp at he; rw [he.1]; exact hn
+        have hnp : (delim bnd).isPrefixOf r = false := by
+          have := h.1; rw [ha] at this; simpa using this
+        -- what follows the leading line break
+        have hpre : ∀ w : Bytes, (delim bnd).isPrefixOf (w ++ 13 :: Y) = (delim bnd).isPrefixOf w :=
+          fun w => isPrefixOf_append_nl w Y (delim_no_nl hb) (by decide)
+        rcases isNl_iff.1 ha with h10 | h13
+        · subst h10
+          rw [List.cons_append, lbLen_lf] at hd
+          simp only [List.drop_succ_cons, List.drop_zero] at hd
+          have : (delim bnd).isPrefixOf (r ++ 13 :: Y) = true := by
+            rw [hd, List.isPrefixOf_iff_prefix]; exact List.prefix_append _ _
+          rw [hpre, hnp] at this; simp at this
+        · subst h13
+          cases r with
+          | nil =>
+            -- CR followed by the CR of the continuation: a one byte line break
+            rw [show ([13] ++ 13 :: Y : Bytes) = 13 :: 13 :: Y from rfl, lbLen_cr_not_lf Y (by decide)] at hd
+            simp only [List.drop_succ_cons, List.drop_zero] at hd
+            have : (delim bnd).isPrefixOf (13 :: Y) = true := by
+              rw [hd, List.isPrefixOf_iff_prefix]; exact List.prefix_append _ _
+            simp [delim, List.isPrefixOf] at this
+          | cons b r2 =>
+            by_cases hb2 : b = 10
+            · subst hb2
+              rw [show ((13 :: 10 :: r2) ++ 13 :: Y : Bytes) = 13 :: 10 :: (r2 ++ 13 :: Y) from rfl, lbLen_crlf] at hd
+              simp only [List.drop_succ_cons, List.drop_zero] at hd
+              have : (delim bnd).isPrefixOf (r2 ++ 13 :: Y) = true := by
+                rw [hd, List.isPrefixOf_iff_prefix]; exact List.prefix_append _ _
+              rw [hpre] at this
+              have h2 := h.2
+              simp only [lineStarts, Bool.or_eq_false_iff] at h2
+              have := h2.1
+              simp [isNl] at this
+              rename_i this2
+              rw [this] at this2; simp at this2
+            · rw [show ((13 :: b :: r2) ++ 13 :: Y : Bytes) = 13 :: b :: (r2 ++ 13 :: Y) from rfl,
+                lbLen_cr_not_lf _ hb2] at hd
+              simp only [List.drop_succ_cons, List.drop_zero] at hd
+              have : (delim bnd).isPrefixOf ((b :: r2) ++ 13 :: Y) = true := by
+                rw [show ((b :: r2) ++ 13 :: Y : Bytes) = b :: (r2 ++ 13 :: Y) from rfl, hd,
+                  List.isPrefixOf_iff_prefix]; exact List.prefix_append _ _
+              rw [hpre, hnp] at this; simp at this
+
+end Wz.Multipart
+
+namespace Wz.Multipart
+open Wz
+
+/-- what follows `--boundary` in the encoder's output: `--CRLF…` (closing delimiter) or `CRLF` +
+the header block of the next part (which does not start with LF) -/
+inductive AfterDelim : Bytes → Bool → Bytes → Prop
+  | closing (epi : Bytes) : AfterDelim (45 :: 45 :: 13 :: 10 :: epi) true epi
+  | next (c : UInt8) (rest : Bytes) (hc : c ≠ 10) : AfterDelim (13 :: 10 :: c :: rest) false (c :: rest)
+
+theorem matchTail_afterDelim {tail : Bytes} {f : Bool} {rest : Bytes} (h : AfterDelim tail f rest) :
+    ∃ m, matchTail tail = some (m, f) ∧ tail.drop m = rest := by
+  cases h with
+  | closing epi =>
+    refine ⟨4, ?_, by simp⟩
+    rw [matchTail_final (by simp [List.isPrefixOf])]
+    have h13 : isHws 13 = false := by decide
+    simp [h13, lbLen_crlf]
+  | next c rest hc =>
+    refine ⟨2, ?_, by simp⟩
+    apply matchTail_false_iff.2
+    exact ⟨[], 13, 10 :: c :: rest, rfl, by simp, by decide, by simp [lbLen_crlf]⟩
+
+/-- **The framing written by the encoder is undone by the DATA kernel.** For every payload none of
+whose lines starts with `--boundary`: the stream `CRLF payload CRLF --boundary tail` decodes (in
+state DATA_START, single shot) to exactly `payload`, the right delimiter kind and the right rest. -/
+theorem dataSpec_encoded {bnd : Bytes} (hb : BoundaryOk bnd) (payload tail : Bytes) {f : Bool} {rest : Bytes}
+    (hp : PayloadOk bnd payload) (ht : AfterDelim tail f rest) :
+    dataSpec bnd true (13 :: 10 :: payload ++ 13 :: 10 :: (delim bnd ++ tail)) = some (payload, f, rest) := by
+  rcases matchTail_afterDelim ht with ⟨m, hm, hdrop⟩
+  let P : Bytes := 13 :: 10 :: payload
+  let Y : Bytes := 10 :: (delim bnd ++ tail)
+  have hS : (13 :: 10 :: payload ++ 13 :: 10 :: (delim bnd ++ tail) : Bytes) = P ++ 13 :: Y := rfl
+  -- the real delimiter
+  have hmatch : matchDelimAt bnd false (13 :: Y) = some (2 + (bnd.length + 2) + m, f) := by
+    apply matchDelimAt_iff.2
+    refine ⟨tail, m, by simp [Y, lbLen_crlf], by simp [Y, lbLen_crlf], hm, by simp [Y, lbLen_crlf]⟩
+  have hsearch : searchDelim bnd false (P ++ 13 :: Y) =
+      some (P.length, P.length + (2 + (bnd.length + 2) + m), f) := by
+    rw [searchDelim_skip (P ++ 13 :: Y) P.length (no_match_inside hb P Y hp)]
+    have : (P ++ 13 :: Y).drop P.length = 13 :: Y := by simp
+    rw [this, searchDelim_cons_some hmatch]
+    simp [shift, Nat.add_comm]
+  rw [hS, dataSpec_true, hsearch]
+  simp only [Option.some.injEq, Prod.mk.injEq, true_and]
+  constructor
+  · have : (P ++ 13 :: Y).take P.length = P := by simp
+    rw [this]
+    simp [P, lbLen_crlf]
+  · have : (P ++ 13 :: Y).drop (P.length + (2 + (bnd.length + 2) + m)) =
+        (13 :: Y).drop (2 + (bnd.length + 2) + m) := by
+      rw [Nat.add_comm, drop_add_append]
+    rw [this]
+    have e : (13 :: Y : Bytes) = [13, 10] ++ (delim bnd ++ tail) := rfl
+    rw [e]
+    have e2 : 2 + (bnd.length + 2) + m = (m + (delim bnd).length) + ([13, 10] : Bytes).length := by
+      simp [delim]; omega
+    rw [e2, drop_add_append, drop_add_append, hdrop]
+
+/-- the body-less form (`headers CRLF CRLF--boundary`): the payload is empty -/
+theorem dataSpec_encoded_empty {bnd : Bytes} (tail : Bytes) {f : Bool} {rest : Bytes}
+    (ht : AfterDelim tail f rest) :
+    dataSpec bnd true (13 :: 10 :: (delim bnd ++ tail)) = some ([], f, rest) := by
+  rcases matchTail_afterDelim ht with ⟨m, hm, hdrop⟩
+  have hmatch : matchDelimAt bnd false (13 :: 10 :: (delim bnd ++ tail)) = some (2 + (bnd.length + 2) + m, f) := by
+    apply matchDelimAt_iff.2
+    exact ⟨tail, m, by simp [lbLen_crlf], by simp [lbLen_crlf], hm, by simp [lbLen_crlf]⟩
+  rw [dataSpec_true, searchDelim_cons_some hmatch]
+  simp only [Option.some.injEq, Prod.mk.injEq, true_and]
+  constructor
+  · simp
+  · have e : (13 :: 10 :: (delim bnd ++ tail) : Bytes) = [13, 10] ++ (delim bnd ++ tail) := rfl
+    rw [e]
+    have e2 : 2 + (bnd.length + 2) + m = (m + (delim bnd).length) + ([13, 10] : Bytes).length := by
+      simp [delim]; omega
+    rw [e2, drop_add_append, drop_add_append, hdrop]
+
+end Wz.Multipart
